@@ -276,3 +276,46 @@ def _mk_copy_shape(kind):
 
 for _k in ("Simple", "Connected", "Disjoint"):
     _mk_copy_shape(_k)
+
+
+def _mk_complement_measure(kind):
+    @proof(f"C05.complement[{kind}]", "C05", funcs=["shape.SimpleShape.__invert__", "shape.ConnectedShape.__invert__", "shape.DefinedShape.__invert__", "shape.IntegrateShape.polynomial"],
+           props=["C05", "C04", "C01"], timeout=600)
+    def _(h):
+        """m(~A) = -m(A) for all moments up to order 2, through the real complement and the real integrators, on
+        symbolic polygons (Simple: triangle and quadrilateral; Connected: triangle with a triangular hole -- the
+        nesting test of the regrouping is the only stub)."""
+        from shapepy.jordancurve import JordanCurve as JC
+        from shapepy.shape import IntegrateShape
+
+        def poly(pfx, n):
+            return [h.point(f"{pfx}{i}") for i in range(n)]
+
+        if kind == "Simple":
+            shapes = [SimpleShape(JC.from_vertices(poly("a", 3))), SimpleShape(JC.from_vertices(poly("b", 4)))]
+        else:
+            outer, hole = SimpleShape(JC.from_vertices(poly("a", 3))), SimpleShape(JC.from_vertices(poly("b", 3)))
+            c = object.__new__(ConnectedShape)
+            c._ConnectedShape__subshapes = (outer, hole)
+            shapes = [c]
+        for shape in shapes:
+            before = [IntegrateShape.polynomial(shape, a, b) for a, b in ((0, 0), (1, 0), (0, 1), (2, 0), (1, 1), (0, 2))]
+            lens = {}
+
+            def jfloat(jd):
+                if id(jd) not in lens:
+                    lens[id(jd)] = Engine.cur.fresh_real("len", "F")
+                return lens[id(jd)]
+
+            with h.stubs({(DefinedShape, "__contains__"): lambda s_, w_: False, (JC, "__float__"): jfloat} if h.sym else {}):
+                inv = ~shape
+            after = [IntegrateShape.polynomial(inv, a, b) for a, b in ((0, 0), (1, 0), (0, 1), (2, 0), (1, 1), (0, 2))]
+            h.ensure("every-moment-changes-sign", AND(*[EQ(x, -y) for x, y in zip(before, after)]))
+            h.ensure("operand-moments-unchanged", AND(*[EQ(IntegrateShape.polynomial(shape, a, b), m) for (a, b), m in zip(((0, 0), (1, 0), (0, 2)), (before[0], before[1], before[5]))]))
+            back = ~inv if kind == "Simple" else None
+            if back is not None:
+                h.ensure("double-complement-restores-moments", AND(*[EQ(IntegrateShape.polynomial(back, a, b), m) for (a, b), m in zip(((0, 0), (1, 1)), (before[0], before[4]))]))
+
+
+_mk_complement_measure("Simple")
+_mk_complement_measure("Connected")
